@@ -236,9 +236,11 @@ pub fn gen_doc(r: &mut Rng, procs: &Value, o: &RuleOpts, serial: u64) -> Value {
 // requests
 
 pub const METHODS: [&str; 7] = ["GET", "POST", "PUT", "DELETE", "PATCH", "HEAD", "OPTIONS"];
-pub const PATHS: [&str; 14] = [
+pub const PATHS: [&str; 19] = [
     "/metadata/instance", "/metadata/identity/oauth2/token", "/machine", "/machine/", "/vmAgentLog", "/Metadata/Instance", "/", "/metadata/instance/compute/name",
     "/machine/..", "/a/../b", "/..", "/vmSettings", "/machine/374188df/x", "/metadata/scheduledevents",
+    // '..' glued to other characters inside a segment is still a path containing '..'
+    "/machine/..%2Fsecret", "/metadata/v1..2/instance", "/..;/metadata/instance", "/metadata/instance..", "/machine/...",
 ];
 pub const QUERIES: [&str; 16] = [
     "a=1&a1=2", "api=v&api-version=2018-02-01", "comp=x&comptype=a", "k&k-2=b&k=%20",
